@@ -443,6 +443,21 @@ def _run(tier, seed, t0):
 
     for src in directed:
         z3_case(src, 'directed')
+    # the same goal under several bound names: a name that is also free in the goal, or is used by a sibling binder,
+    # makes the wrapper rename the binder - what it records about bound names (of_nat of a bound variable is ToReal of
+    # THAT variable, not one free real) must follow the renaming
+    ALL_ = "({v} = 0 --> of_nat {v} = (0::real)) & ({v} = 1 --> of_nat {v} = (1::real))"
+    NONE_ = "({v} = 0 & ~(of_nat {v} = (0::real))) | ({v} = 1 & ~(of_nat {v} = (1::real)))"
+    renaming = [
+        "(!{v}::nat. " + ALL_ + ") --> ~(x = 7)", "y = 2 --> (?{v}::nat. " + NONE_ + ")",
+        "(!x::nat. of_nat x + (1::real) > 0) --> (!{v}::nat. " + ALL_ + ") --> false",
+        "(!{v}::nat. " + ALL_ + ") --> of_nat x + (1::real) > 0",
+        "(?x::nat. x > 3) --> (?{v}::nat. " + NONE_ + ")", "(!{v}::nat. of_nat {v} >= (0::real)) --> of_nat x >= (0::real)",
+        "(!{v}::nat. of_nat {v} = r) --> false", "(?{v}::nat. of_nat {v} > of_nat x + (0::real)) --> x < 0",
+    ]
+    for templ in renaming:
+        for v_ in ('k', 'x', 'y', 'x1', 'n'):
+            z3_case(templ.replace('{v}', v_), 'bound-name')
     # invalid goals on which z3 tends to answer 'unknown' (quantified recurrences); the counter-model is supplied as
     # a hint and only narrows the oracle's search: the oracle asks for a model of  ~goal & hint
     V0 = z3.Var(0, z3.IntSort())
